@@ -51,6 +51,11 @@ CHECKS = {
          'Every history of small NT/stud/razz/draw/badugi/PLO/tiny double-board configurations under automation in {none, all, three mixed}: (1) the records appended by each event, re-applied with their logged players/amounts/cards to a fresh un-automated state, reproduce the same records and equal fields; each record also matches the observed change of stacks, bets, cards and statuses; (2) a fresh state fed the same events equals the state reached through deepcopy branching; (3) operating on a deepcopy never changes the original, two copies respond identically, no mutable container is shared.',
          'Deviation-bounded on the larger configurations (bound per family in evidence); warnings ignored.',
          'DESIGN.md section 4 C15'),
+ 'C13': ('model_checking',
+         'exhaustive enumeration of layouts / up-card assignments on the real State: button games explored by BFS in product with the betting automaton seeded by an independent layout-based opener reference; stud cases dealt explicitly and compared with an independent door-card / exposed-hand reference',
+         'Button games: every blind/straddle/post layout over {0,1,2,4,-2}^n (n=2..4, thorough 5) x short/deep stack patterns, first and later rounds, actor compared at every state. Stud and razz: every ordered door-card assignment (all 2652 for 2 players; 3-4 players over sub-decks, thorough full deck for 3) incl. all-in designees, and every assignment of 2-4 up-cards per player over 2-3 rank sub-decks (pairs, trips, quads, suit-only differences).',
+         'Layouts whose largest blind is not the last positive entry are undetermined and skipped. Two genuine opener defects are listed in known_findings.json (heads-up non-ascending layouts; short last-blind poster).',
+         'DESIGN.md section 4 C13'),
 }
 
 def main():
